@@ -122,6 +122,13 @@ class H(semh.Base):
             _, ptypes, ret = self.task
             ps = " , ".join(f"{t} a{i}" for i, t in enumerate(ptypes))
             return T(f"def f ( {ps} ) {'-> ' + ret + ' ' if ret else ''}{{ }}".replace("->", "-~ >"))
+        if k == "defret":       # const int n = V; def f(..) -> T[n] { [const int n = 4;] }  : the designator is resolved where the def is written
+            _, ty, nd, shadow = self.task
+            cs, w = self.sym_digits(ex, "v", nd)
+            self.want_w = w
+            params = {"none": "int a0", "body": "int a0", "param": "int n"}[shadow]
+            body = "const int n = 4 ;" if shadow == "body" else ""
+            return T(f"const int n = $v ; def f ( {params} ) -~ > {ty} [ n ] {{ {body} }}", {"v": ("INT_NUMBER", cs)})
         if k == "listing":
             _, np_, nq = self.task
             ps = " , ".join(f"p{i}" for i in range(np_))
@@ -213,6 +220,21 @@ class H(semh.Base):
                 if qt.v != "Qubit":
                     raise Violation(f"gate qubit q{i} recorded as {qt!r}")
             return "gate"
+        if k == "defret":
+            _, ty, nd, shadow = self.task
+            t = sym("f")
+            if t.v != "SubroutineDef":
+                raise Violation(f"`{self.label()}`: subroutine recorded as {t!r}")
+            rt = t[0]["return_type"]
+            shown = repr(rt)
+            if not errs:
+                ok, cond = type_matches(rt, TY[ty], self.want_w, True)
+                ok2, cond2 = type_matches(rt, TY[ty], self.want_w, False)
+                if not (ok or ok2):
+                    raise Violation(f"`{self.label()}`: return type recorded as {shown}, declared {ty}[n] with the global const n")
+                ex.prove(cond if ok else cond2, f"`{self.label()}`: no diagnostic, but the recorded return-type width {shown} is not the value of the designator `n` visible where the def is written", {"t": shown})
+                ex.prove(z3.ULE(self.want_w, U32), f"`{self.label()}`: a return-type width above 2^32-1 is accepted without diagnostic")
+            return "defret"
         if k == "def":
             _, ptypes, ret = self.task
             t = sym("f")
@@ -321,6 +343,10 @@ def build_tasks(quick):
     for k in range(0, 5):
         for ret in (None, "int", "float", "bit", "bool"):
             tasks.append(("def", tuple(pts[(i + k) % len(pts)] for i in range(k)), ret))
+    for ty in ("int", "uint") if quick else ("int", "uint", "float", "angle", "bit"):
+        for shadow in ("none", "body", "param"):
+            for nd in (1, 2):
+                tasks.append(("defret", ty, nd, shadow))
     tasks.append(("listing", 2, 3))
     tasks.append(("listing", 0, 1))
     return tasks
